@@ -53,3 +53,30 @@ package contexttags
 //@   props C03 C05
 //@   inline
 //@   requires b != nil && fn != nil
+
+// ---- GetContextTags: the tag buffers of all layers, outermost first (C19) ----
+//@ spec func isCtx(e error) bool = typeis(e, *withContext)
+//@ spec func ctxCount(e error, k int) int
+//@ unfold ctxCount(e, k) = k <= 0 ? 0 : ctxCount(e, k - 1) + (isCtx(chainAt(e, k - 1)) ? 1 : 0)
+//@ spec func hasNonStr(b *logtags.Buffer) bool
+//@ spec func strOnly(b *logtags.Buffer) *logtags.Buffer
+//@ spec func normTags(b *logtags.Buffer) *logtags.Buffer = hasNonStr(b) ? strOnly(b) : b
+
+//@ func hasNonStringValue
+//@   props C19 C05
+//@   requires b != nil
+//@   defines hasNonStr(b)
+
+//@ func convertToStringsOnly
+//@   props C19 C05
+//@   requires b != nil
+//@   defines strOnly(b)
+
+//@ func GetContextTags
+//@   props C19
+//@   ensures len(res) == ctxCount(err, chainLen(err))
+//@   ensures forall j int :: 0 <= j && j < chainLen(err) && isCtx(chainAt(err, j)) ==> res[ctxCount(err, j)] == normTags(chainAt(err, j).(*withContext).tags)
+//@   loop 1: ghost k int = 0 step k + 1
+//@           invariant k >= 0 && e == chainAt(err, k) && (forall j int :: 0 <= j && j < k ==> chainAt(err, j) != nil)
+//@           invariant len(res) == ctxCount(err, k)
+//@           invariant forall j int :: 0 <= j && j < k && isCtx(chainAt(err, j)) ==> ctxCount(err, j) < len(res) && res[ctxCount(err, j)] == normTags(chainAt(err, j).(*withContext).tags)
